@@ -171,3 +171,82 @@ def _rotations(h):
                     want.append(c)
             h.ensure("filter_rotations-keeps-one-representative-per-cycle-in-order", tuple(out) == tuple(want), detail=f"{combo} -> {out}")
             h.case(("filter", k, len(want)), True)
+
+
+def _mk_box_fold(owner_name):
+    @proof(f"C17.box-fold[{owner_name}]", "C17", funcs=[f"{'jordancurve.JordanCurve' if owner_name == 'JordanCurve' else 'shape.DefinedShape'}.box"], abstract=True, props=["C17", "C02"])
+    def _(h):
+        """loop cut with an object-valued accumulator: box() of a curve (shape) is the fold of `|` over the boxes of
+        its segments (curves), for every number of them: corner = running min / max of the element corners."""
+        if not h.sym:
+            return
+        from shapepy.shape import DefinedShape, SimpleShape
+        from ..symx import lift
+
+        eng = Engine.cur
+        F = {nm: (z3.Function(f"EL_{nm}", z3.IntSort(), z3.RealSort()), z3.Function(f"FOLD_{nm}", z3.IntSort(), z3.RealSort())) for nm in ("lx", "ly", "hx", "hy")}
+
+        def unfold(k):
+            cs = []
+            for nm, (el, fo) in F.items():
+                pick = (lambda a, b: z3.If(b < a, b, a)) if nm[0] == "l" else (lambda a, b: z3.If(b > a, b, a))
+                cs.append(fo(1) == el(0))
+                cs.append(z3.Implies(k >= 1, fo(k + 1) == pick(fo(k), el(k))))
+            return z3.And(*cs)
+
+        class Elem:
+            def __init__(self, k):
+                self.k = k
+
+            def box(self):
+                return Box(Point2D(Sym(F["lx"][0](self.k), "F"), Sym(F["ly"][0](self.k), "F")), Point2D(Sym(F["hx"][0](self.k), "F"), Sym(F["hy"][0](self.k), "F")))
+
+        if owner_name == "JordanCurve":
+            class Abs(JordanCurve):
+                def __init__(self):
+                    pass
+
+                segments = AbsSeq("segments", Elem)
+
+            seq, fn, var = Abs.segments, JordanCurve.box, "box"
+        else:
+            class Abs(SimpleShape):
+                def __init__(self):
+                    pass
+
+                jordans = AbsSeq("jordans", Elem)
+
+            seq, fn, var = Abs.jordans, DefinedShape.box, "box"
+
+        def is_fold(b, k):
+            return z3.And(lift(b.lowpt[0]) == F["lx"][1](k), lift(b.lowpt[1]) == F["ly"][1](k), lift(b.toppt[0]) == F["hx"][1](k), lift(b.toppt[1]) == F["hy"][1](k))
+
+        def inv(env, k, s):
+            eng.assume(unfold(k))
+            eng.assume(unfold(k + 1))
+            b = env[var]
+            if b is None:
+                return SymBool(k == 0)
+            return SymBool(z3.And(k >= 1, is_fold(b, k)))
+
+        def havoc_box(e, k):
+            if e.decide(k == 0):
+                return None
+            return Box(Point2D(e.fresh_real("blx", "F"), e.fresh_real("bly", "F")), Point2D(e.fresh_real("bhx", "F"), e.fresh_real("bhy", "F")))
+
+        ctl = LoopCtl(h, {0: inv}, havoc={0: {var: havoc_box}}, fn_name=f"{owner_name}.box")
+        cutfn, _ = cut(fn, ctl)
+        try:
+            res = cutfn(Abs())
+        except StopPath:
+            return
+        n = seq.n
+        eng.assume(unfold(n))
+        if res is None:
+            h.ensure("no-element-gives-none", SymBool(n == 0))
+        else:
+            h.ensure("box-is-the-running-min-max-of-the-element-boxes", SymBool(z3.And(n >= 1, is_fold(res, n))))
+
+
+_mk_box_fold("JordanCurve")
+_mk_box_fold("DefinedShape")
